@@ -248,20 +248,27 @@ def {}():
       for obj, constrained_blks in constraints.items():
 
         # blocks that read/write obj itself, a part of obj (field, slice),
-        # or a signal that contains obj
+        # or a signal that contains obj. A signal that is driven through a
+        # connection is written when the writer of its net is written.
+        objs = { obj }
+        if typ == 'wr':
+          for writer, signals in top.get_all_value_nets():
+            if obj in signals:
+              objs.update( signals )
+
         related_blks = set()
         for x, blks in equal_blks.items():
           y = x
           while y.is_signal():
-            if y is obj:
+            if y in objs:
               related_blks |= blks
               break
             y = y.get_parent_object()
-        y = obj
-        while y.is_signal():
-          if y in equal_blks:
-            related_blks |= equal_blks[ y ]
-          y = y.get_parent_object()
+        for y in objs:
+          while y.is_signal():
+            if y in equal_blks:
+              related_blks |= equal_blks[ y ]
+            y = y.get_parent_object()
 
         # enumerate upblks that has a constraint with x
         for (sign, co_blk) in constrained_blks:
